@@ -783,7 +783,9 @@ pub fn compress(values: &[FixWord], max_size: u8) -> (Vec<FixWord>, HashMap<FixW
                 .expect("the `result` array contains at least 1 element so this is never 0");
             value_to_index.insert(v, index);
         }
-        let replacement = (*interval.last().unwrap() + *interval.first().unwrap()) / 2;
+        // PLtoTF.2014.78: the midpoint is rounded down, also for negative values.
+        let first = *interval.first().unwrap();
+        let replacement = first + (*interval.last().unwrap() - first) / 2;
         result.push(replacement);
     }
 
